@@ -214,6 +214,8 @@ def run_obligation(ctx, ob, cfg):
         res.inconclusive.append('z3 error: %s' % e)
     res.queries += ex.queries
     res.covers = covers_seen
+    for lab in getattr(ob, 'required_covers', ()):
+        covers_seen.setdefault(lab, 'never-emitted')
     for lab, st in covers_seen.items():
         if st != 'sat' and not res.violations:
             res.inconclusive.append('vacuity: cover %r unreachable' % lab)
@@ -279,6 +281,17 @@ def find_values(v, cls, depth=0):
         for f in v.upvars:
             out += find_values(f, cls, depth + 1)
     return out
+
+
+def responder_of(req):
+    """the one-shot reply sender carried directly by a request enum value (not one buried inside its payload)"""
+    from models_async import OneshotTx
+    if isinstance(req, Enum):
+        for pl in req.payload.values():
+            for f in (pl.values() if isinstance(pl, dict) else pl):
+                if isinstance(f, OneshotTx):
+                    return f
+    return None
 
 
 def run_async(ip, p, coro, budget=2, on_suspend=None, max_polls=10):
